@@ -163,7 +163,7 @@ theorem compile_correct_level (lv : Nat) (p : Program) (res : Result) (hp : CgPr
         rw [hr] at hf
         simp only [Except.ok.injEq] at hf
         subst hf
-        obtain ⟨its, _, _, _, _, hits, _⟩ := (compileRoutines_cg ⟨[], [], List.nodup_nil⟩ 1 lv p.routines 0 _ _ _ _ hseq rfl rfl hall rfl rfl
+        obtain ⟨its, _, _, _, _, hits, _⟩ := (compileRoutines_cg { rs := [], N := [], hlab := List.nodup_nil } 1 lv p.routines 0 _ _ _ _ hseq rfl rfl hall rfl rfl
           (wrapAssert_ok hr)).2 j r hj
         simp only [Nat.zero_add] at hits
         rw [List.getElem?_eq_none h'] at hits
